@@ -42,7 +42,7 @@ PROBES_REQUIRED = ["fault_fired", "chroot_called", "ids_dropped"]
 
 FAULT_POINTS = ["bind", "load_cert_chain", "getpwnam", "getgrnam", "chroot", "chdir", "setgroups",
                 "setregid", "setreuid"]
-ERRORS = ["EPERM", "EINVAL", "KeyError"]
+ERRORS = ["EPERM", "EINVAL", "KeyError", "EAGAIN"]   # EAGAIN: fails every time it is retried
 PRIV_CALLS = ("chroot", "setgroups", "setregid", "setreuid", "setuid", "setgid", "setresuid", "setresgid",
               "seteuid", "setegid")
 
@@ -119,7 +119,7 @@ def gen(seed, index, tier):
     if rng.random() < 0.5:
         pts = [p for p in FAULT_POINTS if _applies(opts, p)]
         pt = rng.choice(pts)
-        fault = {"point": pt, "error": "KeyError" if pt in ("getpwnam", "getgrnam") else rng.choice(["EPERM", "EINVAL"])}
+        fault = {"point": pt, "error": "KeyError" if pt in ("getpwnam", "getgrnam") else rng.choice(["EPERM", "EINVAL", "EAGAIN"])}
     return {"opts": opts, "fault": fault}
 
 
@@ -162,6 +162,10 @@ class Model:
         if self.fired:
             self.after_fault.append(point)
         f = self.fault
+        if getattr(self, "sticky", None) == point:
+            # (a resource limit does not go away because the call is repeated)
+            self.after_fault.pop()
+            raise BlockingIOError(errno.EAGAIN, "Resource temporarily unavailable")
         if f and f["point"] == point and not self.fired:
             self.fired = True
             e = f["error"]
@@ -169,6 +173,9 @@ class Model:
                 raise KeyError("getpwnam(): name not found")
             if e == "EPERM":
                 raise PermissionError(errno.EPERM, "Operation not permitted")
+            if e == "EAGAIN":
+                self.sticky = point
+                raise BlockingIOError(errno.EAGAIN, "Resource temporarily unavailable")
             raise OSError(errno.EINVAL, "Invalid argument")
 
     def rec(self, name, *args):
